@@ -62,6 +62,16 @@ def make_ensemble(rng, r, n=None, d=None):
         vecs = [gen.unit(rng, d, cplx) for _ in range(n)]
         rhos = [np.outer(v, v.conj()) for v in vecs]
         inp = [v.copy() for v in vecs] if form == "vec1d" else [v.reshape(-1, 1).copy() for v in vecs]
+    if cplx and r % 5 == 4:
+        # dtype hostility: an ensemble whose FIRST state has a real dtype while later ones are genuinely complex
+        if form == "dm":
+            rhos[0] = gen.density(rng, d, int(rng.integers(1, d + 1)), False).real
+            inp[0] = rhos[0].copy()
+        else:
+            vecs[0] = gen.unit(rng, d, False)
+            rhos[0] = np.outer(vecs[0], vecs[0])
+            inp[0] = vecs[0].copy() if form == "vec1d" else vecs[0].reshape(-1, 1).copy()
+        form = form + "+real-first"
     pk = (r // 3) % 3
     p = gen.prior(rng, n, pk)
     return dict(d=d, n=n, cplx=cplx, form=form, rhos=rhos, inp=inp, vecs=vecs, p=p, pk=pk)
@@ -84,7 +94,7 @@ def check_min_error(ctx, e, pd, label="O1"):
     d, p, rhos = e["d"], e["p"], e["rhos"]
     field = "complex" if e["cplx"] else "real"
     sig = (e["n"], d, e["form"], field, e["pk"], pd)
-    nt = e["cplx"] or e["form"] == "dm" or e["pk"] != 0
+    nt = e["cplx"] or e["form"].startswith("dm") or e["pk"] != 0
     neg, comp, hdev = certs.povm_defect(ms, d)
     ctx.check("O1:povm-valid", max(neg, comp, hdev) <= TOLP, dev=max(neg, comp, hdev), tol=TOLP, sig=sig, nt=nt, mech=f"state_distinguishability:invalid-povm[{pd}]",
               detail={"neg": neg, "completeness": comp, "herm": hdev})
@@ -116,7 +126,7 @@ def _run_ens(ctx, spec, rng):
     n, d, p, rhos = e["n"], e["d"], e["p"], e["rhos"]
     field = "complex" if e["cplx"] else "real"
     sig = (n, d, e["form"], field, e["pk"])
-    nt = e["cplx"] or e["form"] == "dm" or e["pk"] != 0
+    nt = e["cplx"] or e["form"].startswith("dm") or e["pk"] != 0
     spanning = np.linalg.matrix_rank(sum(rhos), tol=1e-9) == d
     vd = check_min_error(ctx, e, "dual")
     vp = check_min_error(ctx, e, "primal") if spanning or r % 4 == 0 else None
@@ -137,9 +147,9 @@ def _run_ens(ctx, spec, rng):
         ctx.check("O2:helstrom", None, dev=abs(v - hel), tol=TOLV, sig=sig, nt=nt, mech="state_distinguishability:helstrom-mismatch", detail={"value": v, "helstrom": hel})
     # invariance under a common unitary and under relabelling
     u = gen.haar(rng, d, real=not e["cplx"])
-    if e["form"] == "dm":
+    if e["form"].startswith("dm"):
         rot = [u @ x @ u.conj().T for x in e["inp"]]
-    elif e["form"] == "col":
+    elif e["form"].startswith("col"):
         rot = [u @ x for x in e["inp"]]
     else:
         rot = [u @ x for x in e["inp"]]
